@@ -294,6 +294,10 @@ pub fn print_cond(c: &Cond, r: &mut Rng, extra_pct: u32) -> String {
             _ => String::new(),
         }
     }
+    // a comparison operator needs no blanks around it
+    fn osp(r: &mut Rng, extra_pct: u32) -> String {
+        if extra_pct > 0 && r.chance(40) { String::new() } else { " ".into() }
+    }
     fn opar(s: String, r: &mut Rng, extra_pct: u32) -> String {
         if extra_pct > 0 && r.chance(extra_pct / 2) { format!("({})", s) } else { s }
     }
@@ -310,8 +314,8 @@ pub fn print_cond(c: &Cond, r: &mut Rng, extra_pct: u32) -> String {
         Cond::All(i) => { let (a, b) = (isp(r, extra_pct), isp(r, extra_pct)); format!("all({}{}{})", a, i, b) }
         Cond::Of(i, n) => { let (a, b, c2) = (isp(r, extra_pct), isp(r, extra_pct), isp(r, extra_pct)); format!("of({}{}{},{}{}{})", a, i, b, if r.chance(50) { " " } else { "" }, n, c2) }
         // an operand of a comparison may carry its own redundant parentheses
-        Cond::Cmp(f, k, op, lit) => { let (a, b) = (isp(r, extra_pct), isp(r, extra_pct)); let l = opar(format!("{}({}{}{})", k, a, f, b), r, extra_pct); let rr = opar(lit.clone(), r, extra_pct); format!("{}{}{}{}{}", l, sp(r), op, sp(r), rr) }
-        Cond::CmpRev(f, k, op, lit) => { let (a, b) = (isp(r, extra_pct), isp(r, extra_pct)); let l = opar(lit.clone(), r, extra_pct); let rr = opar(format!("{}({}{}{})", k, a, f, b), r, extra_pct); format!("{}{}{}{}{}", l, sp(r), op, sp(r), rr) }
+        Cond::Cmp(f, k, op, lit) => { let (a, b) = (isp(r, extra_pct), isp(r, extra_pct)); let l = opar(format!("{}({}{}{})", k, a, f, b), r, extra_pct); let rr = opar(lit.clone(), r, extra_pct); let (s1, s2) = (osp(r, extra_pct), osp(r, extra_pct)); format!("{}{}{}{}{}", l, s1, op, s2, rr) }
+        Cond::CmpRev(f, k, op, lit) => { let (a, b) = (isp(r, extra_pct), isp(r, extra_pct)); let l = opar(lit.clone(), r, extra_pct); let rr = opar(format!("{}({}{}{})", k, a, f, b), r, extra_pct); let (s1, s2) = (osp(r, extra_pct), osp(r, extra_pct)); format!("{}{}{}{}{}", l, s1, op, s2, rr) }
         Cond::StrEq(a, b) => { let (x, y) = (isp(r, extra_pct), isp(r, extra_pct)); format!("str({}{}{}){}=={}str({}{}{})", x, a, y, sp(r), sp(r), y, b, x) }
         Cond::CmpFF(a, k, op, b) => { let (x, y) = (isp(r, extra_pct), isp(r, extra_pct)); format!("{}({}{}{}){}{}{}{}({}{}{})", k, x, a, y, sp(r), op, sp(r), k, y, b, x) }
         Cond::Not(x) => {
